@@ -233,7 +233,31 @@ func Child(seed int64, tier, stateFile string, rounds int, testnet bool) {
 		}
 		return sc
 	}
+	// two pairs of receive-only P2PKH addresses whose index keys (SipHash-2-4 with a zero key over the 20-byte program)
+	// agree in their low resp. high 32 bits: an index keyed by fewer than 64 bits of it would merge them
+	collide := collidingPrograms(r)
 	for round := 0; round < rounds; round++ {
+		if round == 0 && len(collide) > 0 {
+			view := g.View(s.Ref.Tip)
+			for _, op := range g.Spendable(view, s.Ref.Tip.Height+1, true) {
+				if c := view[op]; c.Value > 10000000 {
+					var outs []refchain.TxOut
+					var total uint64
+					for i, prog := range collide {
+						v := 20000 + uint64(i)*1000
+						outs = append(outs, refchain.TxOut{Value: v, Script: append(append([]byte{0x76, 0xa9, 0x14}, prog...), 0x88, 0xac)})
+						total += v
+					}
+					outs = append(outs, g.OutTrue(c.Value-total-500))
+					t := g.Spend([]refchain.OutPoint{op}, []refchain.Coin{c}, outs, 2, 0, nil, -1)
+					if !offer(g.Build(chainsim.BlockSpec{Parent: s.Ref.Tip, Txs: []*refchain.Tx{t}, Fees: 500}), "colliding-index-keys") {
+						return
+					}
+					run.Inc("histories_with_addresses_colliding_in_32_bits_of_the_index_key")
+					break
+				}
+			}
+		}
 		// a transaction paying many outputs to few addresses: list->map switch-over (UseMapCnt=4),
 		// several outputs of one tx to one address, values at MinValue-1 / MinValue
 		view := g.View(s.Ref.Tip)
@@ -384,4 +408,74 @@ func Main() {
 	os.RemoveAll(tmp) // Finish exits the process: deferred clean-up would not run
 	run.Finish("each evaluation = GetAllUnspent(addr) (set, sum) for one address compared with the UTXO projection after one delivery / reorganisation step / index (re)build; plus a full Browse comparison each time; distinct_nontrivial = distinct (address, set of unspent outputs) states that were compared",
 		"address_checks", "address_states_compared", 4)
+}
+
+// siphash24 is SipHash-2-4 (Aumasson, Bernstein) - written from the paper, no gocoin code.
+func siphash24(k0, k1 uint64, m []byte) uint64 {
+	v0, v1, v2, v3 := k0^0x736f6d6570736575, k1^0x646f72616e646f6d, k0^0x6c7967656e657261, k1^0x7465646279746573
+	rotl := func(x uint64, b uint) uint64 { return x<<b | x>>(64-b) }
+	round := func() {
+		v0 += v1
+		v1 = rotl(v1, 13)
+		v1 ^= v0
+		v0 = rotl(v0, 32)
+		v2 += v3
+		v3 = rotl(v3, 16)
+		v3 ^= v2
+		v0 += v3
+		v3 = rotl(v3, 21)
+		v3 ^= v0
+		v2 += v1
+		v1 = rotl(v1, 17)
+		v1 ^= v2
+		v2 = rotl(v2, 32)
+	}
+	n := len(m)
+	for ; len(m) >= 8; m = m[8:] {
+		w := uint64(m[0]) | uint64(m[1])<<8 | uint64(m[2])<<16 | uint64(m[3])<<24 | uint64(m[4])<<32 | uint64(m[5])<<40 | uint64(m[6])<<48 | uint64(m[7])<<56
+		v3 ^= w
+		round()
+		round()
+		v0 ^= w
+	}
+	b := uint64(n) << 56
+	for i, c := range m {
+		b |= uint64(c) << (8 * uint(i))
+	}
+	v3 ^= b
+	round()
+	round()
+	v0 ^= b
+	v2 ^= 0xff
+	round()
+	round()
+	round()
+	round()
+	return v0 ^ v1 ^ v2 ^ v3
+}
+
+// collidingPrograms returns up to four 20-byte programs: p0,p1 agree in the low 32 bits of siphash24(0,0,.), p2,p3 in
+// the high 32 bits (nil if the reference vector of the SipHash paper does not check out or nothing is found).
+func collidingPrograms(r *vlib.Rand) [][]byte {
+	vec := make([]byte, 15)
+	for i := range vec {
+		vec[i] = byte(i)
+	}
+	if siphash24(0x0706050403020100, 0x0f0e0d0c0b0a0908, vec) != 0xa129ca6149be45e5 {
+		return nil
+	}
+	var out [][]byte
+	for _, shift := range []uint{0, 32} {
+		seen := map[uint32][]byte{}
+		for i := 0; i < 600000; i++ {
+			p := r.Bytes(20)
+			k := uint32(siphash24(0, 0, p) >> shift)
+			if q, ok := seen[k]; ok && string(q) != string(p) {
+				out = append(out, q, p)
+				break
+			}
+			seen[k] = p
+		}
+	}
+	return out
 }
